@@ -361,6 +361,95 @@ def r7_queued_started(ctx):
            % ([ty for _, ty in awaits] or 'none — the connections spawned by the drain loop get their first poll after the signal and are closed unread'))
 
 
+def r8_queue_fits_one_tick(ctx):
+    ctx.rule('C16.R8', 'P7/P9 constant provenance: the graceful arm gives the drained connections ONE suspension (C16.R7) before the coordinator is '
+             'signalled. A tokio LocalSet polls at most 61 spawned tasks per tick, so one suspension reaches every drained connection only while a '
+             'worker\'s inbox cannot hold more than that: every capacity handed to Worker::new is a constant, and it is <= 61 — or the worker '
+             'suspends once per drained connection (a yield inside the drain loop).')
+    TICK = 61
+    from ..flow import rv_operands
+    server = [x for x in ctx.fb.bodies(CR) if not x.is_promoted and x.nid.startswith('pavex::server::')]
+
+    def const_item(path):
+        for x in ctx.fb.bodies(CR):
+            if x.nid == strip_generics(path):
+                return [int(o['int']) for _, _, st in x.all_assigns() for o in rv_operands(st['rv'])[0] if 'int' in o]
+        return []
+
+    def values_of(b, op, depth=0):
+        """the constants an operand can carry: literals, crate constants, fields (the constants stored into fields of that name), parameters
+        (the values the callers inside pavex::server pass); None = computed at run time"""
+        if 'int' in op:
+            return [int(op['int'])]
+        if 'uneval' in op and 'promoted' not in op:
+            return const_item(op['uneval']) or [None]
+        pl = op_place(op)
+        if pl is None or depth > 3:
+            return [None]
+        defs = Defs(b)
+        sl, locs = backward_slice(b, pl['l'], defs, through_calls=False)
+        vals, fields = [], {e[2:] for e in pl.get('p', []) if e.startswith('f:') and not e[2:].isdigit()}
+        for _, _, nd in sl:
+            rv = nd.get('rv')
+            if not rv:
+                continue
+            if rv['k'] == 'use' and 'int' in rv['op']:
+                vals.append(int(rv['op']['int']))
+            elif rv['k'] == 'use' and 'uneval' in rv['op'] and 'promoted' not in rv['op']:
+                vals += const_item(rv['op']['uneval']) or [None]
+            elif rv['k'] not in ('use', 'ref', 'cast'):
+                vals.append(None)
+            ops_, pls_ = rv_operands(rv)
+            for q in pls_ + [op_place(o) for o in ops_ if op_place(o)]:
+                fields |= {e[2:] for e in q.get('p', []) if e.startswith('f:') and not e[2:].isdigit()}
+        if vals:
+            return vals
+        if fields:
+            for x in server:
+                for xb, j, st in x.all_assigns():
+                    rv = st['rv']
+                    if rv['k'] == 'agg' and rv.get('ak') == 'adt':
+                        for fname, o in zip(rv.get('fields', []), rv['ops']):
+                            if fname in fields:
+                                vals += values_of(x, o, depth + 1)
+            if vals:
+                return vals
+        params = [l for l in locs | {pl['l']} if 1 <= l <= b.raw['argc']]
+        if params and b.nid == b.nroot:
+            for x in server:
+                for xb, t2 in x.calls():
+                    if callee(t2) == b.nid and len(t2['args']) >= max(params):
+                        for k in params:
+                            vals += values_of(x, t2['args'][k - 1], depth + 1)
+        return vals or [None]
+
+    caps = []
+    for b in server:
+        for bb, t in b.calls():
+            if callee(t) != WK + 'Worker::new' or len(t['args']) < 2:
+                continue
+            caps.append((b, bb, t, values_of(b, t['args'][1])))
+    if not ctx.need('C16.R8', 'calls of Worker::new in pavex::server', caps):
+        return
+    # a drain loop that suspends per connection does not depend on the bound
+    run = coroutine_of(ctx, 'C16.R8', WK + 'Worker::run')
+    per_conn = False
+    if run is not None:
+        recv = blocks_calling(run, 'tokio::sync::mpsc::bounded::Receiver::recv')
+        gs = blocks_calling(run, 'hyper_util::server::graceful::GracefulShutdown::shutdown')
+        hc = [h for h in blocks_calling(run, serve_fn(ctx)) if recv and gs and h in run.reachable(run.succ(recv[0]), avoid=gs) and recv[0] in run.reachable(run.succ(h), avoid=gs)]
+        for h in hc:
+            for bb, t in run.calls():
+                if callee(t) == 'core::future::into_future::IntoFuture::into_future' and bb in run.reachable(run.succ(h), avoid=recv + gs) \
+                        and 'Recv' not in (t['aty'][0] if t['aty'] else ''):
+                    per_conn = True
+    for b, bb, t, vals in caps:
+        ok = per_conn or (bool(vals) and all(v is not None and v <= TICK for v in vals))
+        ctx.ob('C16.R8', 'inbox-capacity|%s' % b.nroot.replace('pavex::server::', ''), ok, b.loc(bb, t),
+               'inbox capacity handed to Worker::new: %s (limit for a single suspension: %d; per-connection suspension in the drain loop: %s)'
+               % (vals, TICK, per_conn))
+
+
 def check(ctx):
     r1_acceptor(ctx)
     r2_worker(ctx)
@@ -369,3 +458,4 @@ def check(ctx):
     r5_handle(ctx)
     r6_socket_options(ctx)
     r7_queued_started(ctx)
+    r8_queue_fits_one_tick(ctx)
